@@ -131,10 +131,10 @@ func (c01) Gen(rng *rand.Rand, tier string, idx int) Case {
 	ooo := oooChoices[rng.Intn(len(oooChoices))]
 	if idx%12 == 11 {
 		// SQL-level stage: whole pipeline through the public API
-		szs := []int64{1000, 500, 60000}
+		szs := []int64{1000, 500, 60000, 1500, 90000} // 1500 ms = '1.5s', 90000 ms = '1m30s' in Go's spelling
 		sz := szs[rng.Intn(len(szs))]
 		o := []int64{0, sz / 2, sz, 2*sz + 1}[rng.Intn(4)]
-		c.Cfg = [][]string{{"kind", "sqltumbling"}, {"size", itoa(sz)}, {"ooo", itoa(o)}, {"late", "0"}, {"now", "0"}}
+		c.Cfg = [][]string{{"kind", "sqltumbling"}, {"size", itoa(sz)}, {"ooo", itoa(o)}, {"late", "0"}, {"now", "0"}, {"spell", []string{"ms", "go"}[rng.Intn(2)]}}
 		genSQLWindow(rng, &c, sz, o)
 		return c
 	}
